@@ -1122,16 +1122,21 @@ decl(struct scope *s, struct func *f)
 struct decl *
 stringdecl(struct expr *expr)
 {
-	static struct map strings;
+	static struct map allstrings[3];
+	struct map *strings;
+	size_t width;
 	struct mapkey key;
 	void **entry;
 	struct decl *d;
 
-	if (!strings.len)
-		mapinit(&strings, 64);
 	assert(expr->kind == EXPRSTRING);
-	mapkey(&key, expr->u.string.data, expr->u.string.size);
-	entry = mapput(&strings, &key);
+	/* one table per element width; the key is the whole array in bytes */
+	width = expr->type->kind == TYPEARRAY ? expr->type->base->size : expr->type->size;
+	strings = &allstrings[width / 2];
+	if (!strings->len)
+		mapinit(strings, 64);
+	mapkey(&key, expr->u.string.data, expr->u.string.size * width);
+	entry = mapput(strings, &key);
 	d = *entry;
 	if (!d) {
 		d = mkdecl("string", DECLOBJECT, expr->type, QUALNONE, LINKNONE);
